@@ -213,12 +213,18 @@ func checkC20(c *Ctx) {
 	}()
 	var wg sync.WaitGroup
 	var mu sync.Mutex
-	var n, nontrivial int64
+	var n, nontrivial, hung int64
 	for w := 0; w < runtime.NumCPU(); w++ {
 		wg.Add(1)
 		go func() {
 			defer wg.Done()
 			for s := range sessions {
+				mu.Lock()
+				stop := hung >= 48
+				mu.Unlock()
+				if stop {
+					continue // the interpreter hangs on session after session: what was seen is reported, the rest would only burn time
+				}
 				seq := make([]*ReplRec, len(s.idx))
 				var in strings.Builder
 				failed := 0
@@ -234,6 +240,9 @@ func checkC20(c *Ctx) {
 				what, detail := judgeSession(prompt, seq, &r)
 				mu.Lock()
 				n++
+				if r.Killed {
+					hung++
+				}
 				if failed > 0 && failed < len(seq) {
 					nontrivial++
 				}
@@ -258,7 +267,10 @@ func checkC20(c *Ctx) {
 	c.addInt("evaluations", n)
 	c.addInt("distinct_nontrivial", nontrivial)
 	c.cov("pool_lines", len(pool))
-	c.cov("exhaustive", true)
+	if hung >= 48 {
+		c.cov("aborted", fmt.Sprintf("%d sessions did not end within their time limit; the remaining sessions were not run", hung))
+	}
+	c.cov("exhaustive", hung < 48)
 	c.cov("rule", fmt.Sprintf("every sequence of <= %d lines over the pool of %d representative REPL lines of FamRepl (prints, bare expressions of every value kind, declarations, nested expression statements, lexical errors, unterminated string / comment, syntax errors, runtime errors of several kinds, stray signals, empty and comment-only lines, assignment to a built-in name), plus %d seeded random sessions of up to %d lines; each line's expected response is that of a fresh session as computed by the specification pipeline (lexer, recogniser, abstract machine in interactive mode); non-trivial = a session mixing failing and succeeding lines", maxExh, len(pool), nRand, maxExh+randLen))
 	c.Ev.Assumptions = []string{"stdout and stderr of the REPL are separate streams: responses are matched on stdout between prompts, diagnostics on stderr in order", "the prompt string is learned from an empty session"}
 }
